@@ -11,6 +11,9 @@
 //!   tail  short stream of commands whose LAST argument is the empty string (or whose key is empty):
 //!         every cut position, and every pair of cuts at most 3 bytes apart, is run (a read that ends
 //!         inside the last bytes of a frame); the model re-checks every cut position
+//!   ttl   SET k v PX 40 | PX 60000 | no deadline, a pause of 90 ms (real time: the handler is wired to
+//!         ProductionTimeSource) between two reads, then plain GETs / SETs of the key (fast path or
+//!         batch): judged by O1 O2 O5 O6 and by the model (the mini backend has a clock)
 //!   bulk  a few SETs / LPUSHes of 1-4 KB values, then a deep pipeline of GET / LRANGE / ECHO (/ MGET)
 //!         whose replies total more than 64, 128 or 256 KiB, fed in one read or in two or three large
 //!         reads: judged by the direct oracles O1 O2 O3 O5; one in two of the 64 KiB cases without
@@ -21,6 +24,8 @@
 //!   O3 output = output of the same stream fed one command per read with batching disabled
 //!   O4 malformed frame: prefix replies intact, then >= 1 reply, all of them errors
 //!   O5 a reply is written by the read that completes its command (no reply is held back)
+//!   O6 (class ttl) the same reads with every GET / SET spelled GeT / SeT - which forces the generic
+//!      path - are answered with the same bytes: the reply does not depend on the path a command takes
 use rand::seq::SliceRandom;
 use rand::Rng as _;
 use redis_sim::observability::{DatadogConfig, Metrics};
@@ -31,6 +36,9 @@ use std::hash::{Hash, Hasher};
 use std::panic::{catch_unwind, AssertUnwindSafe};
 use std::sync::Arc;
 use vharness::conn::ScriptedStream;
+use std::pin::Pin;
+use std::task::{Context, Poll};
+use tokio::io::{AsyncRead, AsyncWrite, ReadBuf};
 use vharness::util::*;
 
 const HEADER: &str = "From RV Require Import Corr.C04.\nLocal Open Scope string_scope.\nLocal Open Scope N_scope.\nLocal Open Scope list_scope.";
@@ -82,6 +90,114 @@ fn run(env: &Env, shards: usize, cfg: (usize, usize), chunks: &[Vec<u8>]) -> Ran
             Ran::Ok(w, cum)
         }
     }
+}
+
+/// like ScriptedStream, but an item may be a pause: the read that follows it completes only after
+/// that many milliseconds of real time
+enum Item {
+    Chunk(Vec<u8>),
+    Pause(u64),
+}
+struct TimedStream {
+    items: std::collections::VecDeque<Item>,
+    sleeping: Option<Pin<Box<tokio::time::Sleep>>>,
+    written: Arc<std::sync::Mutex<Vec<u8>>>,
+    marks: Arc<std::sync::Mutex<Vec<(usize, usize)>>>,
+    reads: usize,
+}
+impl AsyncRead for TimedStream {
+    fn poll_read(mut self: Pin<&mut Self>, cx: &mut Context<'_>, buf: &mut ReadBuf<'_>) -> Poll<std::io::Result<()>> {
+        loop {
+            if let Some(s) = self.sleeping.as_mut() {
+                match s.as_mut().poll(cx) {
+                    Poll::Pending => return Poll::Pending,
+                    Poll::Ready(()) => self.sleeping = None,
+                }
+            }
+            match self.items.pop_front() {
+                None => return Poll::Ready(Ok(())),
+                Some(Item::Pause(ms)) => self.sleeping = Some(Box::pin(tokio::time::sleep(std::time::Duration::from_millis(ms)))),
+                Some(Item::Chunk(c)) => {
+                    assert!(c.len() <= buf.remaining());
+                    buf.put_slice(&c);
+                    self.reads += 1;
+                    return Poll::Ready(Ok(()));
+                }
+            }
+        }
+    }
+}
+impl AsyncWrite for TimedStream {
+    fn poll_write(self: Pin<&mut Self>, _cx: &mut Context<'_>, data: &[u8]) -> Poll<std::io::Result<usize>> {
+        let mut w = self.written.lock().unwrap();
+        w.extend_from_slice(data);
+        self.marks.lock().unwrap().push((self.reads, w.len()));
+        Poll::Ready(Ok(data.len()))
+    }
+    fn poll_flush(self: Pin<&mut Self>, _cx: &mut Context<'_>) -> Poll<std::io::Result<()>> {
+        Poll::Ready(Ok(()))
+    }
+    fn poll_shutdown(self: Pin<&mut Self>, _cx: &mut Context<'_>) -> Poll<std::io::Result<()>> {
+        Poll::Ready(Ok(()))
+    }
+}
+use std::future::Future;
+
+/// as `run`, with pauses: items are (pause before this read in ms, bytes of the read)
+fn run_timed(env: &Env, shards: usize, cfg: (usize, usize), reads: &[(u64, Vec<u8>)]) -> Ran {
+    let nreads = reads.len();
+    let r = catch_unwind(AssertUnwindSafe(|| {
+        env.rt.block_on(async {
+            let state = ShardedActorState::with_shards(shards);
+            let written = Arc::new(std::sync::Mutex::new(Vec::new()));
+            let marks = Arc::new(std::sync::Mutex::new(Vec::new()));
+            let mut items = std::collections::VecDeque::new();
+            for (p, c) in reads {
+                if *p > 0 {
+                    items.push_back(Item::Pause(*p));
+                }
+                items.push_back(Item::Chunk(c.clone()));
+            }
+            let stream = TimedStream { items, sleeping: None, written: written.clone(), marks: marks.clone(), reads: 0 };
+            let pool = ConnectionPool::new(2, 2);
+            let acl = Arc::new(parking_lot::RwLock::new(AclManager::new()));
+            let config = ConnectionConfig { max_buffer_size: MAXBUF, read_buffer_size: MAXBUF, min_pipeline_buffer: cfg.0, batch_threshold: cfg.1 };
+            let h = OptimizedConnectionHandler::new(stream, state, "verif:0".to_string(), pool.buffer_pool(), env.metrics.clone(), config, acl, None);
+            let done = tokio::time::timeout(std::time::Duration::from_secs(5), h.run()).await.is_ok();
+            let w = written.lock().unwrap().clone();
+            let m = marks.lock().unwrap().clone();
+            (done, w, m)
+        })
+    }));
+    match r {
+        Err(e) => Ran::Panic(e.downcast_ref::<String>().cloned().or_else(|| e.downcast_ref::<&str>().map(|s| s.to_string())).unwrap_or_default()),
+        Ok((false, _, _)) => Ran::Hang,
+        Ok((true, w, m)) => {
+            let mut cum = vec![0usize; nreads];
+            for (reads, total) in m {
+                if reads >= 1 && reads <= nreads {
+                    for c in cum.iter_mut().skip(reads - 1) {
+                        *c = (*c).max(total);
+                    }
+                }
+            }
+            Ran::Ok(w, cum)
+        }
+    }
+}
+
+/// the frame with its GET / SET name respelled GeT / SeT (same command, generic path)
+fn generic_spelling(f: &[u8]) -> Vec<u8> {
+    let mut v = f.to_vec();
+    if v.len() >= 13 && (v.starts_with(b"*2\r\n$3\r\n") || v.starts_with(b"*3\r\n$3\r\n") || v.starts_with(b"*5\r\n$3\r\n")) {
+        let name = v[8..11].to_ascii_uppercase();
+        if name == b"GET" || name == b"SET" {
+            v[8] = v[8].to_ascii_uppercase();
+            v[9] = v[9].to_ascii_lowercase();
+            v[10] = v[10].to_ascii_uppercase();
+        }
+    }
+    v
 }
 
 /// end of the RESP value starting at `p`; None = incomplete or not RESP
@@ -465,6 +581,89 @@ fn main() {
         let mut rng = case_rng(args.seed, i);
         let shards = if rng.gen_bool(0.5) { 1 } else { 4 };
         let cfg = CFGS[rng.gen_range(0..CFGS.len())];
+        if i % 40 == 11 {
+            // ---- class ttl
+            out.count("kind:ttl");
+            out.count(&format!("cfg:{}/{}", cfg.0, cfg.1));
+            out.count(&format!("shards:{}", shards));
+            let k = env.keys[rng.gen_range(0..2)].clone();
+            let k2 = env.keys[2].clone();
+            let (label, first): (&str, Vec<u8>) = match rng.gen_range(0..8) {
+                0..=4 => ("px40", enc(&[b"SET", &k, b"v1", b"PX", b"40"])),
+                5..=6 => ("px60000", enc(&[b"SET", &k, b"v1", b"PX", b"60000"])),
+                _ => ("no-deadline", enc(&[b"SET", &k, b"v1"])),
+            };
+            out.count(&format!("ttl:{}", label));
+            let mut reads: Vec<(u64, Vec<u8>)> = vec![(0, first)];
+            if rng.gen_bool(0.5) {
+                reads.push((0, enc(&[&case_name(&mut rng, "get"), &k])));
+            }
+            // after the pause: one read holding 1-4 plain GETs / SETs (fast path, or the batch when the
+            // read is long enough), sometimes preceded by a generic command on the same key
+            let mut after = Vec::new();
+            let mut ncmd = 0;
+            if rng.gen_range(0..5) == 0 {
+                after.extend_from_slice(&enc(&[b"LLEN", &k]));
+                ncmd += 1;
+            }
+            for _ in 0..rng.gen_range(1..5) {
+                match rng.gen_range(0..6) {
+                    0..=3 => after.extend_from_slice(&enc(&[[b"GET".as_ref(), b"get"].choose(&mut rng).unwrap(), &k])),
+                    4 => after.extend_from_slice(&enc(&[b"GET", &k2])),
+                    _ => after.extend_from_slice(&enc(&[b"SET", &k2, b"w"])),
+                }
+                ncmd += 1;
+            }
+            reads.push((90, after));
+            reads.push((0, enc(&[b"APPEND", &k, b"x"])));
+            reads.push((0, enc(&[b"GET", &k])));
+            let ncommands = reads.len() - 1 + ncmd;
+            let got = run_timed(&env, shards, cfg, &reads);
+            let twin_reads: Vec<(u64, Vec<u8>)> = reads.iter().map(|(p, c)| {
+                // respell every frame of the read
+                let mut v = Vec::new();
+                let mut q = 0;
+                while q < c.len() {
+                    let e = resp_end(c, q, 0).unwrap();
+                    v.extend_from_slice(&generic_spelling(&c[q..e]));
+                    q = e;
+                }
+                (*p, v)
+            }).collect();
+            let twin = run_timed(&env, shards, cfg, &twin_reads);
+            out.impl_checks += 2;
+            let d = |got: &Ran, twin: &Ran| json!({"config": [cfg.0, cfg.1], "shards": shards, "reads": reads.iter().map(|(p, c)| format!("pause {} ms, then {:?}", p, String::from_utf8_lossy(c))).collect::<Vec<_>>(), "got": format!("{:?}", match got { Ran::Ok(w, c) => format!("{:?} {:?}", String::from_utf8_lossy(w), c), o => format!("{:?}", o) }), "same_reads_on_the_generic_path": format!("{:?}", match twin { Ran::Ok(w, _) => String::from_utf8_lossy(w).to_string(), o => format!("{:?}", o) })});
+            let (w, cum, dead) = match &got {
+                Ran::Ok(w, c) => (w.clone(), c.clone(), false),
+                _ => {
+                    out.violation(i, "O1: the handler panicked or hung (class ttl)", d(&got, &twin));
+                    (Vec::new(), Vec::new(), true)
+                }
+            };
+            if !dead {
+                if replies(&w).map(|r| r.len()) != Some(ncommands) {
+                    out.violation(i, "O2: number of replies differs from number of commands (class ttl)", d(&got, &twin));
+                }
+                match &twin {
+                    Ran::Ok(tw, tc) => {
+                        if *tw != w || *tc != cum {
+                            out.violation(i, "O6: a plain GET / SET is answered differently from the same command on the generic path (GeT / SeT): the reply depends on the path the command takes", d(&got, &twin));
+                        }
+                    }
+                    _ => out.violation(i, "O1: the handler panicked or hung on the generic-path spelling (class ttl)", d(&got, &twin)),
+                }
+            }
+            // for the model: the clock (ms) at which each read is processed, as scheduled by the script
+            let mut clock = 0u64;
+            let timed: Vec<String> = reads.iter().map(|(p, c)| { clock += p; format!("({}, {})", clock, chex(c)) }).collect();
+            let term = format!("(KTtl {} [{}] {} {} {})", cfg_term(cfg), timed.join("; "), clist(cum.iter(), |c| c.to_string()), chex(&w), cbool(dead));
+            out.case(i, term, true, &format!("ttl{:?}{}{}", cfg, shards, hex(&w)));
+            if args.only.is_some() {
+                println!("class ttl, config {:?}, shards {}", cfg, shards);
+                println!("{}", serde_json::to_string_pretty(&d(&got, &twin)).unwrap());
+            }
+            continue;
+        }
         let kind = if i % exh_every == exh_every - 1 { "all2" } else if i % 20 == 7 { "tail" } else if i % 25 == 3 { "bulk" } else if rng.gen_range(0..5) == 0 { "bad" } else { "seg" };
         let mut bulk_model = false;
         let st = if kind == "tail" {
